@@ -86,8 +86,9 @@ PROPS = {
         technique="field-read census + control-dependence region analysis + call-graph effect closure (proof obligations)",
     ),
     "C01": dict(
-        rules=[R("arith", "rule_num_wrap"), R("arith", "rule_div_float")],
-        clause="Integer `+ - * % ^` and negation wrap and `/` always builds a float, by construction of KNumber's "
+        rules=[R("enc", "rule_enc"), R("enc", "rule_handlers"), R("arith", "rule_num_wrap"), R("arith", "rule_div_float")],
+        clause="Every instruction the compiler emits has the byte layout its decoder reads, and every opcode / instruction "
+               "has a consumer (R-ENC, R-HANDLERS); integer `+ - * % ^` and negation wrap and `/` always builds a float, by construction of KNumber's "
                "operator impls (R-NUM-WRAP, R-DIV-FLOAT). Not decided: result values, evaluation order, "
                "short-circuiting, stale result registers, independence from surrounding code (properties of emitted "
                "code paths).",
@@ -154,10 +155,16 @@ PROPS = {
         technique="path-sensitive typestate (counter) over MIR with discriminant correlation",
     ),
     "C05": dict(
-        rules=[R("compiler", "rule_jump_checked"), R("compiler", "rule_det")],
-        clause="Jump distances are range-checked, never truncated (R-JUMP-CHECKED); no hash-iteration order reaches the "
-               "AST/bytecode (R-DET).",
-        technique="MIR def-use origin analysis and iterator taint over a rustc_private fact dump",
+        rules=[R("enc", "rule_enc"), R("enc", "rule_handlers"), R("enc", "rule_enc_flags"),
+               R("placeholder", "rule_placeholder"), R("compiler", "rule_jump_checked"), R("compiler", "rule_det")],
+        clause="Writer/reader layout agreement for every (emission site, opcode) pair (R-ENC), including the StringPush flags "
+               "byte (R-ENC-FLAGS); every opcode and instruction has a consumer (R-HANDLERS); every jump placeholder is "
+               "patched (R-PLACEHOLDER); jump distances are range-checked, never truncated (R-JUMP-CHECKED); no "
+               "hash-iteration order reaches the AST/bytecode (R-DET). Not decided: register/constant indices in range for "
+               "all programs, balance of sequence/string/try constructs along emitted paths, size limits below the u8 "
+               "register space.",
+        technique="writer/reader grammar extraction from MIR (macro-provenance of decoder reads, array types and emission "
+                  "continuations of encoder sites), typestate, def-use origin analysis, iterator taint",
     ),
     "C07": dict(
         rules=[R("vm", "rule_regs"), R("vm", "rule_frames"), R("vm", "rule_catch_restore"), R("vm", "rule_import"),
